@@ -40,7 +40,7 @@ Definition b3 := (nat * nat * nat)%type.   (* writer, bulk number, fraction *)
 Inductive gop :=
 | GNone
 | GSearch (g : nat) (q : qspec) (began : list b3)
-| GFetch (g : nat) (ids : list id) (began : list b3).
+| GFetch (g : nat) (ids : list id) (began : list b3) (seen : list (id * nat)).   (* acknowledged / returned when the fetch BEGAN *)
 
 Record ghost := mkG {
   g_nfr : nat; g_shift : nat;
@@ -77,7 +77,7 @@ Definition check_search (wb : list (list bulk)) (gh : ghost) (g : nat) (q : qspe
                            || mem_id (d_id d) ids) (docs_of wb began g)).
 
 Definition check_fetch (wb : list (list bulk)) (gh : ghost) (g : nat) (ids : list id) (began : list b3)
-           (bodies : list (option N)) : bool :=
+           (seen : list (id * nat)) (bodies : list (option N)) : bool :=
   let submitted := docs_of wb (g_started gh) g in
   Nat.eqb (length ids) (length bodies)
   && forallb (fun xb =>
@@ -87,7 +87,7 @@ Definition check_fetch (wb : list (list bulk)) (gh : ghost) (g : nat) (ids : lis
            (* not found is allowed only for a document that was neither acknowledged nor returned by a search *)
            Nat.ltb g (g_shift gh)
            || negb (existsb (fun d => id_eqb (d_id d) (fst xb) && unique_id wb (d_id d)) (docs_of wb began g)
-                    || existsb (fun s => id_eqb (fst s) (fst xb) && Nat.eqb (snd s) g) (g_seen gh))
+                    || existsb (fun s => id_eqb (fst s) (fst xb) && Nat.eqb (snd s) g) seen)
        end) (combine ids bodies).
 
 Definition set_nth {A} (n : nat) (x : A) (l : list A) : list A := upd n (fun _ => x) l.
@@ -103,7 +103,7 @@ Definition with_seen (gh : ghost) (g : nat) (ids : list id) : ghost :=
 Definition finish_op (wb : list (list bulk)) (gh : ghost) (r : nat) (op : gop) (o : obs) : ghost :=
   match op, o with
   | GSearch g q began, ORes ids => with_seen (with_op (andok gh (check_search wb gh g q began ids)) r GNone) g ids
-  | GFetch g ids began, OFetch bodies => with_op (andok gh (check_fetch wb gh g ids began bodies)) r GNone
+  | GFetch g ids began seen, OFetch bodies => with_op (andok gh (check_fetch wb gh g ids began seen bodies)) r GNone
   | GNone, _ => fail gh
   | _, OHook _ => with_op gh r op
   | _, _ => fail gh                    (* error, panic, wrong kind of answer *)
@@ -141,7 +141,7 @@ Definition gstep (wb : list (list bulk)) (qs : list qspec) (gh : ghost) (l : lab
   | LFB r j ids, _ =>
       let r := N.to_nat r in
       match nth_error (nth r (g_snap gh) []) (N.to_nat j) with
-      | Some g => finish_op wb gh r (GFetch g ids (g_done gh)) o
+      | Some g => finish_op wb gh r (GFetch g ids (g_done gh) (g_seen gh)) o
       | _ => fail gh
       end
   | LR r, _ => finish_op wb gh (N.to_nat r) (nth (N.to_nat r) (g_op gh) GNone) o
